@@ -91,13 +91,14 @@ class Backend_get_resource:
 
 @contract("xandikos.web.XandikosBackend.create_collection",
           params={"self": "obj:xandikos.web.XandikosBackend", "relpath": "str"},
-          returns="obj:xandikos.web.Collection", may_raise=["FileExistsError", "FileNotFoundError"])
+          returns="obj:xandikos.web.Collection", may_raise=["FileExistsError", "FileNotFoundError", "ValueError"],
+          effects=[["create_collection", "relpath"]], effects_ok=[["created", "relpath"]])
 class Backend_create_collection:
-    """Precondition = what _map_to_file_path needs; it is the callers' (MKCOL, MKCALENDAR,
-    principal creation) obligation to pass a normalised path."""
+    """C13: whatever path MKCOL / MKCALENDAR / principal creation pass in, the repository is
+    created beneath the root (the path is normalised here, as in get_resource)."""
 
     def requires(self, relpath):
-        return relpath.startswith("/") and not has_dotdot_seg(relpath) and self.path != ""
+        return self.path != ""
 
     def ensures(self):
         return fs_paths_under(self.path)
